@@ -279,19 +279,31 @@ def observe(nn_state, R, numeric=False, force=None):
 
 def build_callbacks(cfg, R, plan, nn_state, tmpdir):
     """cfg['cbs'] descriptors -> real callback objects (list order preserved)."""
-    objs = []
-    for i, d in enumerate(cfg["cbs"], start=1):
+    objs = [None] * len(cfg["cbs"])
+    order = [i for i, d in enumerate(cfg["cbs"], start=1) if d["t"] != "early"] + \
+            [i for i, d in enumerate(cfg["cbs"], start=1) if d["t"] == "early"]
+
+    class _Slot:
+        def __init__(self, i):
+            self.i = i
+
+        def append(self, o):
+            objs[self.i - 1] = o
+
+    for i in order:
+        d = cfg["cbs"][i - 1]
         t = d["t"]
+        slot = _Slot(i)
         if t == "rec":
-            objs.append(Rec(R, i, plan))
+            slot.append(Rec(R, i, plan))
         elif t == "eval":
             kind = d.get("kind", "metric")
             if kind == "metric":
-                def metric(nn, _i=i, **kw):
+                def metric(nn, _i=i, _d=d, **kw):
                     R.hist.append(dict(k="EV", cb=_i, ep=R.cur_ep))
                     v = cfg["vals"][R.cur_ep]
-                    return np.float64(v) if d.get("np") else float(v)
-                objs.append(MetricEvaluator(d["period"], {"m": metric}, verbose=bool(d.get("verbose")),
+                    return np.float64(v) if _d.get("np") else float(v)
+                slot.append(MetricEvaluator(d["period"], {"m": metric}, verbose=bool(d.get("verbose")),
                                             log=os.path.join(tmpdir, "eval%d.csv" % i) if d.get("log") else None,
                                             extra_kw=1))
             else:
@@ -305,7 +317,7 @@ def build_callbacks(cfg, R, plan, nn_state, tmpdir):
                     return {"SigmaZ": {"mean": float(v), "variance": float(var),
                                        "std_error": float(var) ** 0.5 / 2.0, "num_samples": 4}}
                 ev.system.statistics = stats
-                objs.append(ev)
+                slot.append(ev)
         elif t == "saver":
             md = d.get("meta", "none")
             if md == "dict":
@@ -314,7 +326,7 @@ def build_callbacks(cfg, R, plan, nn_state, tmpdir):
                 meta = (lambda nn, ep: {"epoch_meta": ep, "tag": "t%d" % i})
             else:
                 meta = None
-            objs.append(ModelSaver(d["period"], os.path.join(tmpdir, "sv%d" % i), "m{}.pt",
+            slot.append(ModelSaver(d["period"], os.path.join(tmpdir, "sv%d" % i), "m{}.pt",
                                    save_initial=bool(d["initial"]), metadata=meta,
                                    metadata_only=bool(d.get("metaonly"))))
         elif t == "logger":
@@ -322,7 +334,7 @@ def build_callbacks(cfg, R, plan, nn_state, tmpdir):
                 m = re.match(r"Epoch (-?\d+):", msg)
                 R.hist.append(dict(k="LG", cb=_i, ep=int(m.group(1)) if m else None))
                 R.loglines.append(msg)
-            objs.append(Logger(d["period"], logger_fn=logfn))
+            slot.append(Logger(d["period"], logger_fn=logfn))
         elif t == "early":
             evcb = objs[d["ev"] - 1]
             tol = float("inf") if d["tolD"] == 0 else d["tolN"] / d["tolD"]
@@ -332,9 +344,9 @@ def build_callbacks(cfg, R, plan, nn_state, tmpdir):
                 from qucumber.callbacks import VarianceBasedEarlyStopping
                 with warnings.catch_warnings():
                     warnings.simplefilter("ignore")
-                    objs.append(VarianceBasedEarlyStopping(d["period"], tol, d["patience"], evcb, name))
+                    slot.append(VarianceBasedEarlyStopping(d["period"], tol, d["patience"], evcb, name))
             else:
-                objs.append(EarlyStopping(d["period"], tol, d["patience"], evcb, name, criterion=d["crit"]))
+                slot.append(EarlyStopping(d["period"], tol, d["patience"], evcb, name, criterion=d["crit"]))
         else:
             raise common.MachineryError("unknown callback descriptor %r" % (d,))
     return objs
